@@ -464,6 +464,40 @@ def witness_fires(fid):
     return False
 
 
+def replay(run, path):
+    """re-run one replay file: the text through the implementation, judged by S when the abstract file is recorded"""
+    d = json.load(open(path))["replay"]
+    txt = d.get("text"); tr = d.get("stream", "").startswith("text-mode") or bool(d.get("translated"))
+    if txt is None:
+        run.log("replay file holds no input text:", d.get("kind")); return run.finish()
+    o = run_impl(txt, tr)
+    run.log("implementation:", (flat(o) if o[0] == "ok" else o))
+    if o[0] == "shape":
+        run.violation("replay: " + o[1], dict(kind="S-on-code", text=txt, translated=tr, detail=o[1])); return run.finish()
+    C.clean_cases("Cases_C10_replay")
+    body = HEADER
+    if d.get("abstract_file"):
+        body += f"Definition gs : list gcase := [({d['abstract_file']}, {C.boolean(tr)}, {C.text(txt)}, {l_out(o)})].\n"
+        body += "Eval vm_compute in check_all (map (fun g => model_ok (tc_of g)) gs).\nEval vm_compute in check_all (map spec_ok gs).\n"
+    else:
+        body += f"Definition ts : list tcase := [({C.boolean(tr)}, {C.text(txt)}, {l_out(o)})].\n"
+        body += "Eval vm_compute in check_all (map model_ok ts).\nEval vm_compute in check_all (map model_ok ts).\n"
+    p = f"{C.GEN}/Cases_C10_replay.v"; open(p, "w").write(body)
+    rc, out = C.coqc(p, 600)
+    ms = re.findall(r"=\s*\(\s*(\d+)\s*,\s*(\[[^\]]*\]|nil)\s*\)", " ".join(out.split()))
+    C.clean_cases("Cases_C10_replay")
+    if rc != 0 or len(ms) != 2:
+        run.violation("replay case file did not evaluate: " + out[-300:], dict(kind="broken-tie", text=txt), False); return run.finish()
+    m_ok = "[]" in ms[0][1].replace(" ", "") or ms[0][1] == "nil"; s_ok = "[]" in ms[1][1].replace(" ", "") or ms[1][1] == "nil"
+    run.log(f"replay: model = code: {m_ok}; S accepts the code's result: {s_ok}")
+    if not s_ok:
+        run.violation("replay: the cues read differ from the cues written", dict(d, implementation=(flat(o) if o[0] == "ok" else list(o))))
+    elif not m_ok:
+        run.violation("replay: model and code disagree", dict(d, kind="broken-tie"), found_input=False)
+    run.cov.update(evaluations=1, distinct_nontrivial=1, rule="replay of one recorded input")
+    return run.finish()
+
+
 def main():
     run = C.Run(PROP, "proof")
     run.hygiene()
@@ -484,7 +518,7 @@ def main():
         run.violation("table translator failed closed: " + "; ".join(errors), dict(kind="translator", errors=errors), False)
         return run.finish()
     if changed: run.log("tables regenerated:", changed)
-    ok, log = run.build(["Proofs/C10/Time.vo", "Proofs/C10/Lines.vo", "Proofs/C10/Text.vo", "Proofs/C10/Roundtrip.vo", "Proofs/C10/Tags.vo",
+    ok, log = run.build(["Proofs/C10/Time.vo", "Proofs/C10/Lines.vo", "Proofs/C10/Text.vo", "Proofs/C10/Roundtrip.vo", "Proofs/C10/Tags.vo", "Proofs/C10/Witness.vo",
                          "Model/SrtReaderCases.vo"], clean=(run.tier == "thorough"))
     proofs_ok = ok and run.theorems()
     if not ok: run.proof_log = log[-2500:]
@@ -494,6 +528,8 @@ def main():
     logging.disable(logging.CRITICAL)
     import ttconv.srt.writer as w
     rng = run.rng
+    if os.environ.get("VERIF_REPLAY"):
+        return replay(run, os.environ["VERIF_REPLAY"])
     thorough = run.tier == "thorough"
     n_gram, n_writer, n_mal = (7000, 1800, 2200) if thorough else (330, 90, 110)
 
@@ -614,12 +650,13 @@ def main():
         run.violation(f"result of to_model is not one paragraph per cue with exact rational times: {msg}",
                       dict(kind="S-on-code", clause="document shape / time type", text=txt, translated=tr, detail=msg, count=len(sfail_py)))
     if unexcused:
-        i = sorted(set(unexcused))[0]; s_violation = True
+        i = min(set(unexcused), key=lambda j: (len(gcases[j][3]), j)); s_violation = True     # the shortest failing file
         run.violation(f"reading {gcases[i][0]} file gives cues that differ from the cues written ({len(set(unexcused))} files)",
                       dict(g_replay(i), others=[gcases[j][3][:300] for j in sorted(set(unexcused))[1:6]]))
     tie = []
     if not proofs_ok: tie.append("theorems of coq/Properties/C10.v no longer check: " + getattr(run, "proof_log", "")[-600:])
     mm = [("g", i) for i in bad["g_model_ok"]] + [("t", i) for i in bad["t_model_ok"]]
+    mm.sort(key=lambda ki: len((gcases[ki[1]] if ki[0] == "g" else tcases[ki[1]])[-2]))
     if mm:
         k, i = mm[0]; c = gcases[i] if k == "g" else tcases[i]
         tie.append(f"correspondence Model/SrtReader.v vs srt/reader.py disagrees on {len(mm)} texts, first ({c[0]}) {c[-2][:200]!r} -> implementation {str(c[-1])[:300]}")
